@@ -60,7 +60,7 @@ class StmtMixin:
                        'CXXRecordDecl'):
                 continue
             elif k == 'DecompositionDecl':
-                out += self.decomposition(d, ind)
+                raise LoweringError(f'structured binding declaration in {self.cur["name"]} is not lowered')
             else:
                 raise LoweringError(f'no rule for local declaration {k} in {self.cur["name"]}')
         return out
